@@ -948,6 +948,11 @@ def run_history(case, crash_points=True, want=('c09', 'c10', 'c11'), inject=None
                     if w.pending_deletes:
                         # masterapi.delete_server has removed the server's nodes, the master has not processed the event
                         sig += ':during-server-delete-race'
+                    elif any(k[0] == 'entry' for k in taint):
+                        # the race is over but it left a stale /placement/<server>/<instance> node behind (known finding
+                        # stale-entry-after-server-record-deleted); a later reload of that server puts the instance
+                        # back from the stale node - without an identity - and the next cycle's assertion fails
+                        sig += ':after-stale-entry-of-deleted-server'
                     hits['c09'].append((sig, 'op %s: %s: %s' % (op[0], type(e).__name__, str(e)[:120])))
                 try:
                     stats['implicit_restarts'] += 1
